@@ -1,17 +1,68 @@
 package redact
 
-// Replay/search harness for C06 (injected with -overlay, never written into /repo):
-// Unsafe(x) must render entirely inside envelopes and Safe(x) must contain none, for
-// user formatting methods that call back into the printer behind their fmt.State.
+// Replay/search and bounded harness for C06 (injected with -overlay, never written into /repo):
+// Unsafe(x) must render entirely inside envelopes and Safe(x) must contain none, the characters are those fmt
+// prints for x (markers replaced by '?'), and when wrappers are nested the outermost decides.
+//
+// TestVerifReplayC06: quick search over user formatting methods that call back into the printer behind their
+// fmt.State, under Unsafe()/Safe(), plus a passive canary after every re-entrant call (a later, unrelated print
+// must not inherit an override).
+//
+// TestVerifBoundedC06: systematic bounded check of the whole statement. The value universe (c06Universe) is
+//   - passive leaves (nil, numbers, strings with markers / line feeds, bytes, containers, pointers, errors,
+//     Stringers, GoStringers, passive and panicking formatting methods, reflect.Value),
+//   - leaves with a classification of their own (SafeString.., custom SafeValue, registered safe types,
+//     RedactableString/Bytes, SafeMessager, SafeFormatter, StringBuilder),
+//   - all Safe/Unsafe wrapper nestings of depth <= 2 around a selection (the wrapper under test is the third level),
+//   - containers (slice, array, map, struct, pointer to struct, nested, unexported field, typed fields) around
+//     all of the above,
+//   - PROGRAMS: user formatting methods (fmt.Formatter that discovers the SafePrinter behind its fmt.State,
+//     SafeFormatter (+Format or +String), error handled by a registered error hook) whose body is every sequence
+//     of at most 2 (quick) / 3 (thorough, reduced alphabet) operations over an alphabet of SafeString / SafeInt /
+//     SafeRune / ... / UnsafeString / UnsafeRune / ... / Write / Fprintf / Print(args) / Printf(format, args) /
+//     panic, with arguments that are again leaves, wrappers and (nesting depth <= 3) other programs.
+// Every value x is rendered as Unsafe(x) and as Safe(x) through every context of c06Contexts (Sprint, Sprintln,
+// Sprintf with ~40 directives between safe sentinels, Sprintfn + nested Print/Printf, StringBuilder.Print/Printf,
+// nested printers two levels deep, and as an element of an unwrapped slice/struct/map).
+//
+// Oracle (from the statement):
+//   U  rendering of Unsafe(x): well-formed, and nothing but line feeds outside envelopes (the library keeps line
+//      feeds out of envelopes by design);
+//   S  rendering of Safe(x): no marker at all, for every x that does not contain pre-redactable text
+//      (RedactableString/Bytes keep their own envelopes: "classification of its own") and whose methods do not
+//      call the explicit Unsafe* writers;
+//   EQ StripMarkers(output) == fmt's output for the same call with x in place of the wrapped operand, each marker
+//      replaced by '?'. The fmt side of a program is the same operation list run against the io.Writer.
+//   OUT the two laws above for x that contain wrappers themselves: the outermost decides;
+//   POOL after every re-entrant rendering, unrelated later prints of passive values are still correct.
+//
+// Global state: the registered safe types and the error hook are restored (the registry has no public
+// "unregister": it is reached with go:linkname).
 
 import (
 	"encoding/json"
+	"errors"
 	"fmt"
+	"io"
+	"os"
+	"reflect"
+	"strconv"
 	"strings"
 	"testing"
+	_ "unsafe" // go:linkname
 
+	"github.com/cockroachdb/redact/builder"
 	i "github.com/cockroachdb/redact/interfaces"
 )
+
+//go:linkname c06Registry github.com/cockroachdb/redact/internal/rfmt.safeTypeRegistry
+var c06Registry map[reflect.Type]bool
+
+//go:linkname c06ErrorFn github.com/cockroachdb/redact/internal/rfmt.redactErrorFn
+var c06ErrorFn func(err error, p i.SafePrinter, verb rune)
+
+// ---------------------------------------------------------------------------------------------------
+// replay harness
 
 type c06Print struct{ what string }
 
@@ -72,28 +123,62 @@ func c06Outside(s string) string {
 	return sb.String()
 }
 
+func c06Fail(t *testing.T, call, out, why string) {
+	m, _ := json.Marshal(map[string]string{"property": "C06", "call": call, "output": fmt.Sprintf("%q", out), "why": why})
+	fmt.Printf("REPLAY-FAIL: %s\n", m)
+	t.Errorf("%s: %s: %q", call, why, out)
+}
+
 func TestVerifReplayC06(t *testing.T) {
+	nfail := 0
 	fail := func(call, out, why string) {
-		m, _ := json.Marshal(map[string]string{"property": "C06", "call": call, "output": fmt.Sprintf("%q", out), "why": why})
-		fmt.Printf("REPLAY-FAIL: %s\n", m)
-		t.Errorf("%s: %s: %q", call, why, out)
+		nfail++
+		if nfail <= 12 {
+			c06Fail(t, call, out, why)
+		}
+	}
+	// REPLAY_HINTS: a solver model of the override automaton; the only keys used are "verb"/"format"
+	// (a directive to try first); everything else is ignored.
+	var hints map[string]interface{}
+	_ = json.Unmarshal([]byte(os.Getenv("REPLAY_HINTS")), &hints)
+	verbs := []string{"%v", "%s", "%+v", "%d"}
+	for _, k := range []string{"verb", "format"} {
+		if s, ok := hints[k].(string); ok && strings.HasPrefix(s, "%") && strings.Count(s, "%") == 1 {
+			verbs = append([]string{s}, verbs...)
+		}
+	}
+	// canary: a later print of passive values must not inherit anything from an earlier re-entrant call.
+	canary := func(after string) {
+		if out := string(Sprint(Unsafe("c"))); out != vS+"c"+vE {
+			fail("Sprint(Unsafe(\"c\")) /* after "+after+" */", out, "a later Unsafe(x) is not enveloped (stale override in a pooled printer)")
+		}
+		if out := string(Sprintf("l %v", Safe("s"))); out != "l s" {
+			fail("Sprintf(\"l %v\", Safe(\"s\")) /* after "+after+" */", out, "a later Safe(x) or format literal is enveloped (stale override in a pooled printer)")
+		}
 	}
 	whats := []string{"Print(Safe)", "Print(literal string)", "Printf(literal)", "Printf(Safe)", "SafeString", "SafeInt", "UnsafeString", "Write"}
-	for _, verb := range []string{"%v", "%s", "%+v", "%d"} {
+	for _, verb := range verbs {
 		for _, w := range whats {
 			for _, mk := range []struct {
 				name string
 				v    interface{}
 			}{{"Formatter", c06Print{w}}, {"SafeFormatter", c06SF{w}}, {"[]interface{Formatter}", []interface{}{c06Print{w}}}, {"struct{Formatter}", struct{ A interface{} }{c06Print{w}}}} {
+				call := fmt.Sprintf("Sprintf(%q, Unsafe(%s calling %s))", verb, mk.name, w)
 				out := string(Sprintf(verb, Unsafe(mk.v)))
 				if o := c06Outside(out); strings.Trim(o, "[]{} ") != "" && mk.name != "[]interface{Formatter}" && mk.name != "struct{Formatter}" || strings.ContainsAny(o, "abcdefghijklmnopqrstuvwxyz0123456789") {
-					fail(fmt.Sprintf("Sprintf(%q, Unsafe(%s calling %s))", verb, mk.name, w), out, "text outside envelopes under Unsafe(): "+fmt.Sprintf("%q", o))
+					fail(call, out, "text outside envelopes under Unsafe(): "+fmt.Sprintf("%q", o))
 				}
+				canary(call)
 				if mk.name == "Formatter" && w != "UnsafeString" && w != "Write" {
+					call := fmt.Sprintf("Sprintf(%q, Safe(%s calling %s))", verb, mk.name, w)
 					out := string(Sprintf(verb, Safe(mk.v)))
 					if strings.Contains(out, "\xe2\x80\xb9") {
-						fail(fmt.Sprintf("Sprintf(%q, Safe(%s calling %s))", verb, mk.name, w), out, "envelope inside Safe()")
+						fail(call, out, "envelope inside Safe()")
 					}
+					canary(call)
+				}
+				if nfail > 12 {
+					return
 				}
 			}
 		}
@@ -117,5 +202,1180 @@ func TestVerifReplayC06(t *testing.T) {
 		if c.safe && strings.Contains(string(c.out), "\xe2\x80\xb9") {
 			fail(c.call, string(c.out), "envelope inside Safe()")
 		}
+	}
+}
+
+// ---------------------------------------------------------------------------------------------------
+// bounded harness: reference functions written from the statement
+
+// c06Strip: the characters of a rendering = the rendering without the delimiters.
+func c06Strip(s string) string {
+	return strings.ReplaceAll(strings.ReplaceAll(s, vS, ""), vE, "")
+}
+
+// c06Esc: "markers replaced by '?'".
+func c06Esc(s string) string {
+	return strings.ReplaceAll(strings.ReplaceAll(s, vS, "?"), vE, "?")
+}
+
+func c06HasMarker(s string) bool { return strings.Contains(s, vS) || strings.Contains(s, vE) }
+
+// c06OnlyLF: nothing but line feeds (which the library moves out of envelopes by design) outside envelopes.
+func c06OnlyLF(rendering string) (string, bool) {
+	o := c06Outside(rendering)
+	return o, strings.Trim(o, "\n") == ""
+}
+
+// ---------------------------------------------------------------------------------------------------
+// values
+
+// c06Val is one member of the value universe with the facts the oracle needs about it.
+type c06Val struct {
+	name string      // Go-like text
+	v    interface{} // the value
+	red  bool        // contains pre-redactable text (RedactableString/Bytes, StringBuilder) not under an Unsafe(): no Safe() claim
+	expl bool        // a user method calls the explicit Unsafe* writers: no "Safe(x) has no envelope" claim
+	meth bool        // classification through a method (SafeFormatter, SafeMessager, hooked error): under Safe() the method, not fmt, decides how verbs other than plain %v are rendered
+	hasS bool        // contains a Safe() wrapper
+	hasU bool        // contains an Unsafe() wrapper
+	prog bool        // contains a method that calls back into the printer
+	err  bool        // contains an error value (rendered by the hook when one is registered)
+	pan  bool        // a method panics (the method name in the panic report differs between SafeFormat and Format/String)
+	div  string      // known divergence from fmt's characters (reported, equality skipped)
+}
+
+func c06Join(vs []c06Val) (names string, args []interface{}, fl c06Val) {
+	var ns []string
+	for _, a := range vs {
+		ns = append(ns, a.name)
+		args = append(args, a.v)
+		fl.red = fl.red || a.red
+		fl.expl = fl.expl || a.expl
+		fl.meth = fl.meth || a.meth
+		fl.hasS = fl.hasS || a.hasS
+		fl.hasU = fl.hasU || a.hasU
+		fl.prog = fl.prog || a.prog
+		fl.err = fl.err || a.err
+		fl.pan = fl.pan || a.pan
+		if fl.div == "" {
+			fl.div = a.div
+		}
+	}
+	return strings.Join(ns, ", "), args, fl
+}
+
+// c06With builds a value around parts, inheriting their facts.
+func c06With(name string, v interface{}, parts ...c06Val) c06Val {
+	_, _, fl := c06Join(parts)
+	fl.name, fl.v = name, v
+	return fl
+}
+
+func c06P(name string, v interface{}) c06Val { return c06Val{name: name, v: v} }
+
+func c06Safe(x c06Val) c06Val {
+	r := c06With("Safe("+x.name+")", Safe(x.v), x)
+	r.hasS = true
+	return r
+}
+
+func c06Unsafe(x c06Val) c06Val {
+	r := c06With("Unsafe("+x.name+")", Unsafe(x.v), x)
+	r.hasU = true
+	r.red = false // under Unsafe() pre-redactable text is plain data
+	return r
+}
+
+type c06Stringer struct{ S string }
+
+func (c c06Stringer) String() string { return "str:" + c.S }
+
+type c06PtrStr struct{ S string }
+
+func (c *c06PtrStr) String() string { return "pstr:" + c.S } // panics on a nil receiver: "<nil>"
+
+type c06GoStr struct{ S string }
+
+func (c c06GoStr) GoString() string { return "go" + vS + c.S + vE }
+
+// c06PassFm: a passive fmt.Formatter (does not look behind its fmt.State).
+type c06PassFm struct{ A string }
+
+func (c c06PassFm) Format(s fmt.State, verb rune) {
+	fmt.Fprintf(s, "pf[%c %s", verb, c.A)
+	if w, ok := s.Width(); ok {
+		fmt.Fprintf(s, " w%d", w)
+	}
+	_, _ = io.WriteString(s, "]")
+}
+
+type c06PanicStr struct{}
+
+func (c06PanicStr) String() string { panic("boom" + vS + "p" + vE) }
+
+type c06SV string
+
+func (c06SV) SafeValue() {}
+
+type c06SVStruct struct {
+	A string
+	B int
+}
+
+func (c06SVStruct) SafeValue() {}
+
+type c06RegS struct {
+	A string
+	B int
+}
+type c06RegI int
+
+type c06Sm struct{ A string }
+
+func (c c06Sm) SafeMessage() string { return "sm:" + c.A }
+func (c c06Sm) String() string      { return "sm:" + c.A }
+
+// c06SfOnly: a SafeFormatter with no method fmt knows about.
+type c06SfOnly struct {
+	A string
+	B int
+}
+
+func (c c06SfOnly) SafeFormat(sp SafePrinter, _ rune) {
+	sp.SafeString("sf:")
+	sp.Print(c.A)
+	sp.SafeInt(i.SafeInt(c.B))
+}
+
+type c06Box struct {
+	A interface{}
+	B string
+}
+type c06Hid struct {
+	a interface{}
+	B int
+}
+type c06Typed struct {
+	S SafeString
+	R RedactableString
+	N SafeInt
+	W SafeValue
+	E error
+	I interface{}
+}
+
+// ---------------------------------------------------------------------------------------------------
+// programs: user formatting methods that call back into the printer
+
+type c06Op struct {
+	k    string // operation
+	s    string // payload or format
+	n    int
+	args []c06Val
+}
+
+func (o c06Op) String() string {
+	switch o.k {
+	case "SafeRune", "UnsafeRune":
+		return fmt.Sprintf("%s(%q)", o.k, rune(o.n))
+	case "SafeByte", "UnsafeByte":
+		return fmt.Sprintf("%s(%q)", o.k, byte(o.n))
+	case "SafeInt", "SafeUint":
+		return fmt.Sprintf("%s(%d)", o.k, o.n)
+	case "SafeFloat":
+		return fmt.Sprintf("%s(%d.5)", o.k, o.n)
+	case "Print":
+		ns, _, _ := c06Join(o.args)
+		return "Print(" + ns + ")"
+	case "Printf", "Fprintf":
+		ns, _, _ := c06Join(o.args)
+		if ns != "" {
+			ns = ", " + ns
+		}
+		return fmt.Sprintf("%s(%q%s)", o.k, o.s, ns)
+	}
+	return fmt.Sprintf("%s(%q)", o.k, o.s)
+}
+
+type c06Prog struct{ ops []c06Op }
+
+func (p *c06Prog) text() string {
+	var ns []string
+	for _, o := range p.ops {
+		ns = append(ns, o.String())
+	}
+	return strings.Join(ns, "; ")
+}
+
+// c06NoFlags: the directive in progress has no flag, width or precision. SafeInt/SafeUint/SafeFloat format
+// with the flags of the directive in progress, so the programs use them only under a plain directive
+// (and print the same digits with SafeString otherwise): the characters of a program do not depend on flags.
+func c06NoFlags(s fmt.State) bool {
+	if _, ok := s.Width(); ok {
+		return false
+	}
+	if _, ok := s.Precision(); ok {
+		return false
+	}
+	return !s.Flag('+') && !s.Flag('-') && !s.Flag('#') && !s.Flag(' ') && !s.Flag('0')
+}
+
+func c06Args(vs []c06Val) []interface{} {
+	_, a, _ := c06Join(vs)
+	return a
+}
+
+// runPrinter: the program against the SafePrinter (the route taken inside redact).
+func (p *c06Prog) runPrinter(sp SafePrinter) {
+	for _, o := range p.ops {
+		switch o.k {
+		case "SafeString":
+			sp.SafeString(SafeString(o.s))
+		case "SafeRune":
+			sp.SafeRune(SafeRune(o.n))
+		case "SafeByte":
+			sp.SafeByte(i.SafeByte(o.n))
+		case "SafeBytes":
+			sp.SafeBytes(i.SafeBytes(o.s))
+		case "SafeInt":
+			if c06NoFlags(sp) {
+				sp.SafeInt(SafeInt(o.n))
+			} else {
+				sp.SafeString(SafeString(strconv.Itoa(o.n)))
+			}
+		case "SafeUint":
+			if c06NoFlags(sp) {
+				sp.SafeUint(SafeUint(o.n))
+			} else {
+				sp.SafeString(SafeString(strconv.Itoa(o.n)))
+			}
+		case "SafeFloat":
+			if c06NoFlags(sp) {
+				sp.SafeFloat(SafeFloat(float64(o.n) + 0.5))
+			} else {
+				sp.SafeString(SafeString(strconv.Itoa(o.n) + ".5"))
+			}
+		case "UnsafeString":
+			sp.UnsafeString(o.s)
+		case "UnsafeRune":
+			sp.UnsafeRune(rune(o.n))
+		case "UnsafeByte":
+			sp.UnsafeByte(byte(o.n))
+		case "UnsafeBytes":
+			sp.UnsafeBytes([]byte(o.s))
+		case "Write":
+			_, _ = sp.Write([]byte(o.s))
+		case "WriteString":
+			_, _ = io.WriteString(sp, o.s)
+		case "Fprintf":
+			fmt.Fprintf(sp, o.s, c06Args(o.args)...)
+		case "Print":
+			sp.Print(c06Args(o.args)...)
+		case "Printf":
+			sp.Printf(o.s, c06Args(o.args)...)
+		case "Panic":
+			panic(o.s)
+		}
+	}
+}
+
+// runWriter: the same program against a plain io.Writer (the route taken inside fmt): the reference characters.
+func (p *c06Prog) runWriter(w io.Writer) {
+	for _, o := range p.ops {
+		switch o.k {
+		case "SafeString", "SafeBytes", "UnsafeString", "UnsafeBytes", "Write", "WriteString":
+			_, _ = io.WriteString(w, o.s)
+		case "SafeRune", "UnsafeRune":
+			_, _ = io.WriteString(w, string(rune(o.n)))
+		case "SafeByte", "UnsafeByte":
+			_, _ = w.Write([]byte{byte(o.n)})
+		case "SafeInt", "SafeUint":
+			_, _ = io.WriteString(w, strconv.Itoa(o.n))
+		case "SafeFloat":
+			_, _ = io.WriteString(w, strconv.Itoa(o.n)+".5")
+		case "Fprintf", "Printf":
+			fmt.Fprintf(w, o.s, c06Args(o.args)...)
+		case "Print":
+			fmt.Fprint(w, c06Args(o.args)...)
+		case "Panic":
+			panic(o.s)
+		}
+	}
+}
+
+func (p *c06Prog) ref() string {
+	var b strings.Builder
+	p.runWriter(&b)
+	return b.String()
+}
+
+// c06Fm: fmt.Formatter that discovers the SafePrinter behind its fmt.State.
+type c06Fm struct{ p *c06Prog }
+
+func (c c06Fm) Format(s fmt.State, _ rune) {
+	if sp, ok := s.(SafePrinter); ok {
+		c.p.runPrinter(sp)
+	} else {
+		c.p.runWriter(s)
+	}
+}
+
+// c06SfF: SafeFormatter, and for fmt a Formatter.
+type c06SfF struct{ p *c06Prog }
+
+func (c c06SfF) SafeFormat(sp SafePrinter, _ rune) { c.p.runPrinter(sp) }
+func (c c06SfF) Format(s fmt.State, verb rune)     { c06Fm{c.p}.Format(s, verb) }
+
+// c06SfS: SafeFormatter, and for fmt a Stringer.
+type c06SfS struct{ p *c06Prog }
+
+func (c c06SfS) SafeFormat(sp SafePrinter, _ rune) { c.p.runPrinter(sp) }
+func (c c06SfS) String() string                    { return c.p.ref() }
+
+// c06Er: error; with the hook registered the hook runs the program on the printer.
+type c06Er struct{ p *c06Prog }
+
+func (c c06Er) Error() string { return c.p.ref() }
+
+func c06Hook(err error, p i.SafePrinter, _ rune) {
+	if e, ok := err.(c06Er); ok {
+		e.p.runPrinter(p)
+		return
+	}
+	p.Print(err.Error())
+}
+
+var c06Carriers = []string{"c06Fm", "c06SfF", "c06SfS", "c06Er"}
+
+func c06Carrier(kind string, ops ...c06Op) c06Val {
+	p := &c06Prog{ops: ops}
+	var parts []c06Val
+	r := c06Val{}
+	for _, o := range ops {
+		parts = append(parts, o.args...)
+		switch o.k {
+		case "UnsafeString", "UnsafeRune", "UnsafeByte", "UnsafeBytes":
+			r.expl = true
+		case "Panic":
+			r.pan = true
+		}
+	}
+	_, _, fl := c06Join(parts)
+	fl.expl = fl.expl || r.expl
+	fl.pan = fl.pan || r.pan
+	fl.prog = true
+	fl.name = kind + "{" + p.text() + "}"
+	switch kind {
+	case "c06Fm":
+		fl.v = c06Fm{p}
+	case "c06SfF":
+		fl.v = c06SfF{p}
+	case "c06SfS":
+		fl.v = c06SfS{p}
+		fl.meth = true
+	case "c06Er":
+		fl.v = c06Er{p}
+		fl.err = true
+		fl.meth = true
+	}
+	return fl
+}
+
+// ---------------------------------------------------------------------------------------------------
+// the universe
+
+func c06Passive() []c06Val {
+	n := 5
+	box := &c06Box{A: 1, B: "pb" + vE}
+	return []c06Val{
+		c06P("nil", nil),
+		c06P("true", true),
+		c06P("42", 42),
+		c06P("int8(-7)", int8(-7)),
+		c06P("uint8(200)", uint8(200)),
+		c06P("3.5", 3.5),
+		c06P("float32(0.25)", float32(0.25)),
+		c06P("(2+3i)", 2+3i),
+		c06P(`""`, ""),
+		c06P(`"plain"`, "plain"),
+		c06P(`"a‹b›c"`, "a"+vS+"b"+vE+"c"),
+		c06P(`"l1\nl2"`, "l1\nl2"),
+		c06P(`"\n"`, "\n"),
+		c06P(`"‹"`, vS),
+		c06P(`"x›\n\n›y"`, "x"+vE+"\n\n"+vE+"y"),
+		c06P(`"%d%%"`, "%d%%"),
+		c06P(`'x'`, 'x'),
+		c06P(`'‹'`, '‹'),
+		c06P(`[]byte("b‹y›")`, []byte("b"+vS+"y"+vE)),
+		c06P(`[2]int{1, 2}`, [2]int{1, 2}),
+		c06P(`[]string{"a", "‹b›"}`, []string{"a", vS + "b" + vE}),
+		c06P(`[]int(nil)`, []int(nil)),
+		c06P(`map[string]int{"k‹": 1, "a": 2}`, map[string]int{"k" + vS: 1, "a": 2}),
+		c06P(`struct{A int; B string}{1, "s›"}`, struct {
+			A int
+			B string
+		}{1, "s" + vE}),
+		c06P(`&c06Box{1, "pb›"}`, box),
+		c06P(`(*c06Box)(nil)`, (*c06Box)(nil)),
+		c06P(`&n`, &n),
+		c06With(`errors.New("err‹x›\ny")`, errors.New("err"+vS+"x"+vE+"\ny"), c06Val{err: true}),
+		c06With(`c06Err{}`, c06Err{}, c06Val{err: true}),
+		c06P(`c06Stringer{"st‹"}`, c06Stringer{"st" + vS}),
+		c06P(`&c06PtrStr{"p›"}`, &c06PtrStr{"p" + vE}),
+		c06P(`(*c06PtrStr)(nil)`, (*c06PtrStr)(nil)),
+		c06P(`c06GoStr{"g"}`, c06GoStr{"g"}),
+		c06P(`c06PassFm{"f‹"}`, c06PassFm{"f" + vS}),
+		c06With(`c06PanicStr{}`, c06PanicStr{}, c06Val{pan: true}),
+		c06P(`reflect.ValueOf(7)`, reflect.ValueOf(7)),
+		c06P(`reflect.ValueOf("r‹")`, reflect.ValueOf("r"+vS)),
+		c06P(`reflect.ValueOf(c06Stringer{"rs"})`, reflect.ValueOf(c06Stringer{"rs"})),
+		c06P(`c06Hid{c06Stringer{"h‹"}, 1}`, c06Hid{c06Stringer{"h" + vS}, 1}),
+	}
+}
+
+func c06Classified() []c06Val {
+	var sb builder.StringBuilder
+	sb.SafeString("bs")
+	sb.UnsafeString("bu" + vS)
+	return []c06Val{
+		c06P(`SafeString("ss‹")`, SafeString("ss"+vS)),
+		c06P(`SafeInt(-5)`, SafeInt(-5)),
+		c06P(`SafeUint(6)`, SafeUint(6)),
+		c06P(`SafeFloat(1.5)`, SafeFloat(1.5)),
+		c06P(`SafeRune('›')`, SafeRune('›')),
+		c06P(`SafeBytes("sb")`, i.SafeBytes("sb")),
+		c06P(`c06SV("sv›")`, c06SV("sv"+vE)),
+		c06P(`c06SVStruct{"svs", 2}`, c06SVStruct{"svs", 2}),
+		c06P(`c06RegS{"rs‹", 3} /* RegisterSafeType */`, c06RegS{"rs" + vS, 3}),
+		c06P(`c06RegI(9) /* RegisterSafeType */`, c06RegI(9)),
+		c06With(`RedactableString("r‹s›t")`, RedactableString("r"+vS+"s"+vE+"t"), c06Val{red: true}),
+		c06With(`RedactableBytes("q‹b›")`, RedactableBytes("q"+vS+"b"+vE), c06Val{red: true}),
+		c06With(`RedactableString("‹›‹\n›")`, RedactableString(vS+vE+vS+"\n"+vE), c06Val{red: true}),
+		c06With(`c06Sm{"m‹"}`, c06Sm{"m" + vS}, c06Val{meth: true}),
+		c06With(`c06SfOnly{"o›", 4}`, c06SfOnly{"o" + vE, 4}, c06Val{meth: true, prog: true}),
+		c06With(`StringBuilder{SafeString("bs"); UnsafeString("bu‹")}`, sb, c06Val{red: true, meth: true, prog: true}),
+		c06With(`&StringBuilder{SafeString("bs"); UnsafeString("bu‹")}`, &sb, c06Val{red: true, meth: true, prog: true}),
+	}
+}
+
+// c06ProgArgs: operands that programs hand to Print/Printf.
+func c06ProgArgs(quick bool) []c06Val {
+	rs := c06With(`RedactableString("r‹s›t")`, RedactableString("r"+vS+"s"+vE+"t"), c06Val{red: true})
+	all := []c06Val{
+		c06P(`"d‹"`, "d"+vS),
+		c06Safe(c06P(`"s"`, "s")),
+		c06Unsafe(c06P(`"u"`, "u")),
+		c06P(`SafeString("ss")`, SafeString("ss")),
+		rs,
+		c06P(`7`, 7),
+		c06Safe(c06Unsafe(c06P(`1`, 1))),
+		c06Unsafe(c06Safe(c06P(`"n›"`, "n"+vE))),
+		c06Unsafe(rs),
+		c06P(`c06RegS{"rg", 3}`, c06RegS{"rg", 3}),
+		c06With(`[]interface{}{Safe(1), "x", Unsafe(SafeInt(2))}`, []interface{}{Safe(1), "x", Unsafe(SafeInt(2))}, c06Val{hasS: true, hasU: true}),
+		c06With(`errors.New("e‹")`, errors.New("e"+vS), c06Val{err: true}),
+	}
+	if quick {
+		return all[:7]
+	}
+	return all
+}
+
+// c06Atoms: the operation alphabet of one nesting level, over the given Print/Printf operands.
+func c06Atoms(args []c06Val, full bool) []c06Op {
+	ops := []c06Op{
+		{k: "SafeString", s: "S" + vS + "s" + vE},
+		{k: "UnsafeString", s: "U" + vS + "u" + vE + "\nv"},
+		{k: "SafeInt", n: -42},
+		{k: "Write", s: "W" + vE},
+	}
+	if full {
+		ops = append(ops,
+			c06Op{k: "SafeRune", n: '›'},
+			c06Op{k: "SafeFloat", n: 1},
+			c06Op{k: "SafeUint", n: 7},
+			c06Op{k: "SafeByte", n: 'b'},
+			c06Op{k: "SafeBytes", s: "sb"},
+			c06Op{k: "UnsafeRune", n: '‹'},
+			c06Op{k: "UnsafeByte", n: 'c'},
+			c06Op{k: "UnsafeBytes", s: "ub"},
+			c06Op{k: "WriteString", s: "ws"},
+			c06Op{k: "Fprintf", s: "%05d|%v", args: []c06Val{c06P("5", 5), c06P(`"f‹"`, "f"+vS)}},
+		)
+	}
+	for j, a := range args {
+		ops = append(ops, c06Op{k: "Print", args: []c06Val{a}})
+		switch j % 3 {
+		case 0:
+			ops = append(ops, c06Op{k: "Printf", s: "L %v|%6v %d", args: []c06Val{a, a, c06P("3", 3)}})
+		case 1:
+			ops = append(ops, c06Op{k: "Printf", s: "%s", args: []c06Val{a}})
+		case 2:
+			ops = append(ops, c06Op{k: "Printf", s: "%+v" + vS + "%q", args: []c06Val{a, a}})
+		}
+	}
+	if full && len(args) >= 3 {
+		ops = append(ops, c06Op{k: "Print", args: []c06Val{args[0], args[1], args[2]}})
+	}
+	return ops
+}
+
+// c06Programs enumerates the programs: level 1 = every sequence of at most seqLen operations over the alphabet
+// (operands: leaves and wrappers), for each of the four carriers; level 2 and 3 = programs that print a
+// program of the previous level, bare and under Safe()/Unsafe(), alone and between a SafeString and an
+// UnsafeString.
+func c06Programs(quick bool) (progs []c06Val, bound string) {
+	args := c06ProgArgs(quick)
+	atoms := c06Atoms(args, !quick)
+	var seqs [][]c06Op
+	for _, a := range atoms {
+		seqs = append(seqs, []c06Op{a})
+	}
+	for _, a := range atoms {
+		for _, b := range atoms {
+			seqs = append(seqs, []c06Op{a, b})
+		}
+	}
+	small := c06Atoms(args[:3], false)
+	small = append(small, c06Op{k: "Panic", s: "pan" + vS})
+	if !quick {
+		for _, a := range small {
+			for _, b := range small {
+				for _, c := range small {
+					seqs = append(seqs, []c06Op{a, b, c})
+				}
+			}
+		}
+	} else {
+		for _, a := range small {
+			seqs = append(seqs, []c06Op{a, {k: "Panic", s: "pan" + vS}}, []c06Op{{k: "Panic", s: "pan" + vS}, a})
+		}
+	}
+	var level1 []c06Val
+	for _, s := range seqs {
+		for _, k := range c06Carriers {
+			level1 = append(level1, c06Carrier(k, s...))
+		}
+	}
+	progs = append(progs, level1...)
+	// deeper levels: a selection of the previous level (all single-operation programs + every stride-th other)
+	pick := func(level []c06Val, n, stride int) []c06Val {
+		var out []c06Val
+		for j, p := range level {
+			if j < n || j%stride == 0 {
+				out = append(out, p)
+			}
+		}
+		return out
+	}
+	stride := 97
+	if !quick {
+		stride = 41
+	}
+	prev := pick(level1, len(atoms)*len(c06Carriers), stride)
+	levels := 1
+	for depth := 2; depth <= 3; depth++ {
+		var next []c06Val
+		for j, inner := range prev {
+			var ops []c06Op
+			switch j % 4 {
+			case 0:
+				ops = []c06Op{{k: "Print", args: []c06Val{inner}}}
+			case 1:
+				ops = []c06Op{{k: "Printf", s: "%v|%s", args: []c06Val{c06Safe(inner), c06Unsafe(inner)}}}
+			case 2:
+				ops = []c06Op{{k: "SafeString", s: "<"}, {k: "Print", args: []c06Val{c06Unsafe(inner), inner}}, {k: "UnsafeString", s: ">"}}
+			case 3:
+				ops = []c06Op{{k: "Printf", s: "%8v", args: []c06Val{c06Safe(inner)}}, {k: "Write", s: "w"}}
+			}
+			for c, k := range c06Carriers {
+				if depth == 3 && (j+c)%2 == 1 {
+					continue
+				}
+				next = append(next, c06Carrier(k, ops...))
+			}
+		}
+		progs = append(progs, next...)
+		prev = pick(next, 0, 3)
+		levels = depth
+	}
+	bound = fmt.Sprintf("programs: 4 carriers (Formatter discovering the SafePrinter, SafeFormatter+Format, SafeFormatter+String, error + registered hook) x all operation sequences of length <= 2 over %d operations", len(atoms))
+	if !quick {
+		bound += fmt.Sprintf(" and of length 3 over %d operations", len(small))
+	}
+	bound += fmt.Sprintf(", Print/Printf operands from %d leaves/wrappers, nesting depth <= %d", len(args), levels)
+	return progs, bound
+}
+
+// c06Wrapped: all wrapper nestings of depth 1 and 2 (the wrapper under test is the third level).
+func c06Wrapped(bases []c06Val) []c06Val {
+	var out []c06Val
+	for _, b := range bases {
+		l1 := []c06Val{c06Safe(b), c06Unsafe(b)}
+		out = append(out, l1...)
+		for _, w := range l1 {
+			out = append(out, c06Safe(w), c06Unsafe(w))
+		}
+	}
+	return out
+}
+
+// c06Containers: x as a part of a larger value.
+func c06Containers(e c06Val) []c06Val {
+	isWrapper := strings.HasPrefix(e.name, "Safe(") || strings.HasPrefix(e.name, "Unsafe(")
+	out := []c06Val{
+		c06With("[]interface{}{"+e.name+", 1}", []interface{}{e.v, 1}, e),
+		c06With("[1]interface{}{"+e.name+"}", [1]interface{}{e.v}, e),
+		c06With("c06Box{"+e.name+", \"b›\"}", c06Box{e.v, "b" + vE}, e),
+		c06With("&c06Box{"+e.name+", \"b\"}", &c06Box{e.v, "b"}, e),
+		c06With("map[string]interface{}{\"k\": "+e.name+", \"a‹\": 2}", map[string]interface{}{"k": e.v, "a" + vS: 2}, e),
+		c06With("[]interface{}{[]interface{}{"+e.name+"}, c06Box{"+e.name+", \"i\"}}", []interface{}{[]interface{}{e.v}, c06Box{e.v, "i"}}, e),
+		c06With("c06Typed{I: "+e.name+"}", c06Typed{S: "ts" + SafeString(vS), R: RedactableString("tr" + vS + "x" + vE), N: 8, W: Safe("tw"), E: errors.New("te"), I: e.v}, e, c06Val{red: true, hasS: true, err: true}),
+	}
+	hid := c06With("c06Hid{"+e.name+", 1}", c06Hid{e.v, 1}, e)
+	if isWrapper {
+		// fmt cannot call the wrapper's Format method through an unexported field and prints the wrapper
+		// struct itself ("{{5} 1}"); redact recognises the wrapper by its type ("{5 1}").
+		hid.div = "wrapper in an unexported struct field: fmt prints the wrapper struct, redact the wrapped value"
+	}
+	out = append(out, hid)
+	if reflect.TypeOf(e.v) != nil && reflect.TypeOf(e.v).Comparable() {
+		out = append(out, c06With("map[interface{}]int{"+e.name+": 1}", map[interface{}]int{e.v: 1}, e))
+	}
+	rv := c06With("reflect.ValueOf("+e.name+")", reflect.ValueOf(e.v), e)
+	if isWrapper {
+		// DIVERGENCE (reported): handleSpecialValues reads the wrapped value through the unexported field of the
+		// wrapper, so the methods (String, Error, Format) of the wrapped value are not called, where fmt calls
+		// them through the wrapper's Format method.
+		rv.div = "reflect.Value of a wrapper: methods of the wrapped value are not called"
+	}
+	out = append(out, rv)
+	return out
+}
+
+type c06Universe struct {
+	vals  []c06Val
+	bound string
+}
+
+func c06BuildUniverse(quick bool) c06Universe {
+	passive := c06Passive()
+	classified := c06Classified()
+	progs, pbound := c06Programs(quick)
+	var vals []c06Val
+	vals = append(vals, passive...)
+	vals = append(vals, classified...)
+	// wrapper nestings around a selection of leaves and a few programs
+	bases := []c06Val{passive[2], passive[10], passive[11], passive[27], passive[29], passive[33], classified[0], classified[8], classified[10], classified[13], classified[14]}
+	for j, p := range progs {
+		if j < 8 || j%499 == 0 {
+			bases = append(bases, p)
+		}
+	}
+	wrapped := c06Wrapped(bases)
+	vals = append(vals, wrapped...)
+	// containers around leaves, classified leaves, wrappers and a few programs
+	var elems []c06Val
+	elems = append(elems, passive...)
+	elems = append(elems, classified...)
+	elems = append(elems, wrapped...)
+	for j, p := range progs {
+		if j < 16 || j%211 == 0 {
+			elems = append(elems, p)
+		}
+	}
+	ncont := 0
+	for _, e := range elems {
+		cs := c06Containers(e)
+		ncont += len(cs)
+		vals = append(vals, cs...)
+		// one more level: Unsafe/Safe around a container that holds wrappers (depth 3 with the wrapper under test)
+		if e.hasS || e.hasU {
+			vals = append(vals, c06Safe(cs[0]), c06Unsafe(cs[2]))
+		}
+	}
+	vals = append(vals, progs...)
+	return c06Universe{vals: vals, bound: fmt.Sprintf("%d passive leaves, %d leaves with a classification of their own, %d wrapper nestings (depth <= 2 below the wrapper under test, 3 with it), %d containers (slice, array, struct, pointer, map value/key, nested, typed fields, unexported field, reflect.Value) around leaves/wrappers/programs; %s",
+		len(passive), len(classified), len(wrapped), ncont, pbound)}
+}
+
+// ---------------------------------------------------------------------------------------------------
+// contexts: how the wrapped operand reaches the printer
+
+type c06Ctx struct {
+	call  func(arg string) string      // Go-like text of the call, given the text of the operand
+	run   func(arg interface{}) string // the call, on the real API
+	ref   func(x interface{}) string   // fmt's characters for the same call shape
+	pre   string                       // safe text the call puts before the rendering of the operand
+	suf   string                       // ... and after it
+	plain bool                         // plain %v (no flag, width, precision)
+	inner bool                         // the operand is a part of an unwrapped container
+}
+
+const (
+	c06Pre = "@<@"
+	c06Suf = "@>@"
+)
+
+// c06Formats: directives with one operand. %v family first.
+var c06Formats = []string{
+	"%v", "%+v", "%#v", "%s", "%q", "%d", "%x", "%X", "%c", "%U", "%t", "%e", "%6.2f", "%o", "%b", "%T", "%p",
+	"%5v", "%-8v", "%08v", "%.2v", "%+d", "% d", "%#x", "%#q", "%+q", "%10.3s", "%-+#08.3v", "% x", "%w", "%z", "%!", "%O", "%g", "%#o",
+}
+
+func c06Contexts(quick bool) []c06Ctx {
+	var cs []c06Ctx
+	cs = append(cs, c06Ctx{
+		call:  func(a string) string { return "Sprint(" + a + ")" },
+		run:   func(a interface{}) string { return string(Sprint(a)) },
+		ref:   func(x interface{}) string { return fmt.Sprint(x) },
+		plain: true,
+	}, c06Ctx{
+		call:  func(a string) string { return "Sprintln(" + a + ")" },
+		run:   func(a interface{}) string { return string(Sprintln(a)) },
+		ref:   func(x interface{}) string { return fmt.Sprintln(x) },
+		suf:   "\n",
+		plain: true,
+	}, c06Ctx{
+		call:  func(a string) string { return "Sprintln(SafeInt(1), " + a + ", SafeInt(2))" },
+		run:   func(a interface{}) string { return string(Sprintln(SafeInt(1), a, SafeInt(2))) },
+		ref:   func(x interface{}) string { return fmt.Sprintln(1, x, 2) },
+		pre:   "1 ",
+		suf:   " 2\n",
+		plain: true,
+	})
+	for _, f := range c06Formats {
+		f := f
+		cs = append(cs, c06Ctx{
+			call:  func(a string) string { return fmt.Sprintf("Sprintf(%q, %s)", f, a) },
+			run:   func(a interface{}) string { return string(Sprintf(f, a)) },
+			ref:   func(x interface{}) string { return fmt.Sprintf(f, x) },
+			plain: f == "%v",
+		})
+		g := c06Pre + f + c06Suf
+		cs = append(cs, c06Ctx{
+			call:  func(a string) string { return fmt.Sprintf("Sprintf(%q, %s)", g, a) },
+			run:   func(a interface{}) string { return string(Sprintf(g, a)) },
+			ref:   func(x interface{}) string { return fmt.Sprintf(g, x) },
+			pre:   c06Pre,
+			suf:   c06Suf,
+			plain: f == "%v",
+		})
+	}
+	cs = append(cs, c06Ctx{
+		call: func(a string) string { return "Sprintf(\"%*v\", 6, " + a + ")" },
+		run:  func(a interface{}) string { return string(Sprintf("%*v", 6, a)) },
+		ref:  func(x interface{}) string { return fmt.Sprintf("%*v", 6, x) },
+	}, c06Ctx{
+		call: func(a string) string { return "Sprintf(\"%.*v\", 2, " + a + ")" },
+		run:  func(a interface{}) string { return string(Sprintf("%.*v", 2, a)) },
+		ref:  func(x interface{}) string { return fmt.Sprintf("%.*v", 2, x) },
+	}, c06Ctx{
+		call:  func(a string) string { return "Sprintf(\"%[2]v\", 0, " + a + ")" },
+		run:   func(a interface{}) string { return string(Sprintf("%[2]v", 0, a)) },
+		ref:   func(x interface{}) string { return fmt.Sprintf("%[2]v", 0, x) },
+		plain: true,
+	}, c06Ctx{
+		call:  func(a string) string { return "Sprintf(\"%v%%@|@\", " + a + ")" },
+		run:   func(a interface{}) string { return string(Sprintf("%v%%@|@", a)) },
+		ref:   func(x interface{}) string { return fmt.Sprintf("%v%%@|@", x) },
+		suf:   "%@|@",
+		plain: true,
+	})
+	// Sprintfn: the callback's printer, nested printers through Print / Printf
+	for _, f := range []string{"", "%v", "%+v", "%08v", "%q", "%d"} {
+		f := f
+		if f == "" {
+			cs = append(cs, c06Ctx{
+				call: func(a string) string {
+					return "Sprintfn(func(w SafePrinter) { w.SafeString(\"@<@\"); w.Print(" + a + "); w.SafeString(\"@>@\") })"
+				},
+				run: func(a interface{}) string {
+					return string(Sprintfn(func(w SafePrinter) { w.SafeString(c06Pre); w.Print(a); w.SafeString(c06Suf) }))
+				},
+				ref: func(x interface{}) string { return c06Pre + fmt.Sprint(x) + c06Suf },
+				pre: c06Pre, suf: c06Suf, plain: true,
+			}, c06Ctx{
+				call: func(a string) string {
+					return "StringBuilder{SafeString(\"@<@\"); Print(" + a + "); SafeString(\"@>@\")}.RedactableString()"
+				},
+				run: func(a interface{}) string {
+					var b builder.StringBuilder
+					b.SafeString(c06Pre)
+					b.Print(a)
+					b.SafeString(c06Suf)
+					return string(b.RedactableString())
+				},
+				ref: func(x interface{}) string { return c06Pre + fmt.Sprint(x) + c06Suf },
+				pre: c06Pre, suf: c06Suf, plain: true,
+			}, c06Ctx{
+				// two nested printers deep, reached from a SafeFormatter and a Formatter
+				call: func(a string) string {
+					return "Sprint(c06SfF{SafeString(\"@<@\"); Print(c06Fm{Print(" + a + ")}); SafeString(\"@>@\")})"
+				},
+				run: func(a interface{}) string {
+					in := c06Fm{&c06Prog{ops: []c06Op{{k: "Print", args: []c06Val{{v: a}}}}}}
+					return string(Sprint(c06SfF{&c06Prog{ops: []c06Op{{k: "SafeString", s: c06Pre}, {k: "Print", args: []c06Val{{v: in}}}, {k: "SafeString", s: c06Suf}}}}))
+				},
+				ref: func(x interface{}) string { return c06Pre + fmt.Sprint(x) + c06Suf },
+				pre: c06Pre, suf: c06Suf, plain: true,
+			})
+			continue
+		}
+		cs = append(cs, c06Ctx{
+			call: func(a string) string {
+				return fmt.Sprintf("Sprintfn(func(w SafePrinter) { w.Printf(%q, %s) })", c06Pre+f+c06Suf, a)
+			},
+			run: func(a interface{}) string {
+				return string(Sprintfn(func(w SafePrinter) { w.Printf(c06Pre+f+c06Suf, a) }))
+			},
+			ref: func(x interface{}) string { return fmt.Sprintf(c06Pre+f+c06Suf, x) },
+			pre: c06Pre, suf: c06Suf, plain: f == "%v",
+		}, c06Ctx{
+			call: func(a string) string {
+				return fmt.Sprintf("StringBuilder{Printf(%q, %s)}.RedactableString()", c06Pre+f+c06Suf, a)
+			},
+			run: func(a interface{}) string {
+				var b builder.StringBuilder
+				b.Printf(c06Pre+f+c06Suf, a)
+				return string(b.RedactableString())
+			},
+			ref: func(x interface{}) string { return fmt.Sprintf(c06Pre+f+c06Suf, x) },
+			pre: c06Pre, suf: c06Suf, plain: f == "%v",
+		}, c06Ctx{
+			call: func(a string) string {
+				return fmt.Sprintf("Sprintf(\"%%s\", c06Fm{SafeString(\"@<@\"); Printf(%q, %s); SafeString(\"@>@\")})", f, a)
+			},
+			run: func(a interface{}) string {
+				return string(Sprintf("%s", c06Fm{&c06Prog{ops: []c06Op{{k: "SafeString", s: c06Pre}, {k: "Printf", s: f, args: []c06Val{{v: a}}}, {k: "SafeString", s: c06Suf}}}}))
+			},
+			ref: func(x interface{}) string { return c06Pre + fmt.Sprintf(f, x) + c06Suf },
+			pre: c06Pre, suf: c06Suf, plain: f == "%v",
+		})
+	}
+	// the wrapper as a part of an unwrapped container: its neighbours are safe (for Unsafe) or unsafe (for Safe)
+	for _, f := range []string{"%v", "%+v", "%d", "%q"} {
+		f := f
+		cs = append(cs, c06Ctx{
+			call: func(a string) string {
+				return fmt.Sprintf("Sprintf(%q, []interface{}{SafeString(\"@<@\"), %s, SafeString(\"@>@\")})", f, a)
+			},
+			run: func(a interface{}) string {
+				return string(Sprintf(f, []interface{}{SafeString(c06Pre), a, SafeString(c06Suf)}))
+			},
+			ref: func(x interface{}) string { return fmt.Sprintf(f, []interface{}{c06Pre, x, c06Suf}) },
+			pre: map[string]string{"%v": "[@<@ ", "%+v": "[@<@ ", "%d": "[%!d(interfaces.SafeString=@<@) ", "%q": "[\"@<@\" "}[f],
+			suf: map[string]string{"%v": " @>@]", "%+v": " @>@]", "%d": " %!d(interfaces.SafeString=@>@)]", "%q": " \"@>@\"]"}[f],
+			plain: f == "%v", inner: true,
+		})
+	}
+	cs = append(cs, c06Ctx{
+		call: func(a string) string { return "Sprint(c06Typed{S: \"@<@\", I: " + a + ", N: 7}) /* struct field */" },
+		run: func(a interface{}) string {
+			return string(Sprint(struct {
+				S SafeString
+				I interface{}
+				N SafeInt
+			}{c06Pre, a, 7}))
+		},
+		ref: func(x interface{}) string {
+			return fmt.Sprint(struct {
+				S string
+				I interface{}
+				N int
+			}{c06Pre, x, 7})
+		},
+		pre: "{@<@ ", suf: " 7}", plain: true, inner: true,
+	}, c06Ctx{
+		call: func(a string) string { return "Sprint(map[SafeString]interface{}{\"@k@\": " + a + "}) /* map value */" },
+		run: func(a interface{}) string {
+			return string(Sprint(map[SafeString]interface{}{"@k@": a}))
+		},
+		ref: func(x interface{}) string { return fmt.Sprint(map[string]interface{}{"@k@": x}) },
+		pre: "map[@k@:", suf: "]", plain: true, inner: true,
+	})
+	return cs
+}
+
+// ---------------------------------------------------------------------------------------------------
+// the checks
+
+type c06Law struct {
+	law, rule         string
+	cases, nontrivial int
+	fails             int
+}
+
+type c06Harness struct {
+	t        *testing.T
+	fails    int
+	max      int
+	debug    bool
+	hook     bool
+	u, s, eq c06Law
+	out      c06Law
+	pool     c06Law
+	skipped  map[string]int
+}
+
+func (h *c06Harness) fail(l *c06Law, call, out, why string) {
+	l.fails++
+	h.fails++
+	if h.fails <= h.max || h.debug {
+		c06Fail(h.t, call, out, why)
+	}
+}
+
+func (h *c06Harness) stop() bool { return h.fails >= h.max && !h.debug }
+
+// canary: a later print of passive values is unaffected by what was printed before.
+func (h *c06Harness) canary(after string) {
+	h.pool.cases++
+	h.pool.nontrivial++
+	if out := string(Sprint(Unsafe("c" + vS))); out != vS+"c?"+vE {
+		h.fail(&h.pool, "Sprint(Unsafe(\"c‹\")) /* after "+after+" */", out, "a later Unsafe(x) is not exactly one envelope around its escaped characters")
+	}
+	if out := string(Sprintf("l %v|", Safe("s"))); out != "l s|" {
+		h.fail(&h.pool, "Sprintf(\"l %v|\", Safe(\"s\")) /* after "+after+" */", out, "a later Safe(x) or the format literal around it is enveloped")
+	}
+	if out := string(Sprint("d", SafeString("e"))); out != vS+"d"+vE+"e" {
+		h.fail(&h.pool, "Sprint(\"d\", SafeString(\"e\")) /* after "+after+" */", out, "a later unwrapped print does not separate unsafe and safe operands")
+	}
+}
+
+// one renders x under the wrapper `kind` ('U' or 'S') through ctx and applies the laws.
+func (h *c06Harness) one(kind byte, x c06Val, ctx *c06Ctx) {
+	var arg interface{}
+	var argName string
+	if kind == 'U' {
+		arg, argName = Unsafe(x.v), "Unsafe("+x.name+")"
+	} else {
+		arg, argName = Safe(x.v), "Safe("+x.name+")"
+	}
+	call := ctx.call(argName)
+	if h.hook {
+		call += " /* error hook registered */"
+	}
+	out := ctx.run(arg)
+	if x.prog {
+		h.canary(call)
+	}
+	if !vWellFormed(out) {
+		h.fail(&h.u, call, out, "the output is not well-formed (markers do not alternate)")
+		return
+	}
+	if !strings.HasPrefix(out, ctx.pre) || !strings.HasSuffix(out[len(ctx.pre):], ctx.suf) {
+		l := &h.u
+		if kind == 'S' {
+			l = &h.s
+		}
+		h.fail(l, call, out, fmt.Sprintf("the safe text around the operand (%q ... %q) is not rendered verbatim outside envelopes", ctx.pre, ctx.suf))
+		return
+	}
+	rendering := out[len(ctx.pre) : len(out)-len(ctx.suf)]
+	// the same call without the wrapper: only to MEASURE whether the case is non-trivial
+	bare := ""
+	bareOK := false
+	func() {
+		defer func() { _ = recover() }()
+		b := ctx.run(x.v)
+		if strings.HasPrefix(b, ctx.pre) && strings.HasSuffix(b[len(ctx.pre):], ctx.suf) {
+			bare, bareOK = b[len(ctx.pre):len(b)-len(ctx.suf)], true
+		}
+	}()
+	if x.prog {
+		h.canary(ctx.call(x.name))
+	}
+	nested := kind == 'U' && x.hasS || kind == 'S' && x.hasU
+	switch kind {
+	case 'U':
+		h.u.cases++
+		o, ok := c06OnlyLF(rendering)
+		if !ok {
+			h.fail(&h.u, call, out, fmt.Sprintf("text outside envelopes under Unsafe(): %q", o))
+		}
+		nt := false
+		if bareOK {
+			if _, trivial := c06OnlyLF(bare); !trivial {
+				nt = true
+			}
+		}
+		if nt {
+			h.u.nontrivial++
+		}
+		if x.hasS || x.hasU {
+			h.out.cases++
+			if nested {
+				h.out.nontrivial++
+			}
+			if !ok {
+				h.out.fails++
+			}
+		}
+	case 'S':
+		if x.red {
+			h.skipped["Safe(x), x contains pre-redactable text (keeps its own envelopes: classification of its own)"]++
+			return
+		}
+		if x.expl {
+			h.skipped["Safe(x) no-envelope claim, a method of x calls an explicit Unsafe* writer (classification of its own)"]++
+		} else {
+			h.s.cases++
+			bad := c06HasMarker(rendering)
+			if bad {
+				h.fail(&h.s, call, out, "envelope inside Safe()")
+			}
+			if bareOK && c06HasMarker(bare) {
+				h.s.nontrivial++
+			}
+			if x.hasS || x.hasU {
+				h.out.cases++
+				if nested {
+					h.out.nontrivial++
+				}
+				if bad {
+					h.out.fails++
+				}
+			}
+		}
+	}
+	// characters
+	switch {
+	case x.div != "":
+		h.skipped["characters, KNOWN DIVERGENCE: "+x.div]++
+		return
+	case (kind == 'S' || ctx.inner) && !ctx.plain && (x.hasS || kind == 'S' && ctx.inner):
+		// DIVERGENCE (reported): outside an Unsafe(), a Safe() wrapper that is reached through a container or
+		// another Safe() is rendered through its SafeMessage() method = Sprintf("%v") of the wrapped value, and the
+		// directive is then applied to that string: Sprintf("%d", Safe([]interface{}{Safe(5)})) is
+		// "[%!d(redact.safeWrapper=5)]" where fmt prints "[5]"; %x prints "[35]", %q "[\"5\"]".
+		h.skipped["characters, KNOWN DIVERGENCE: a Safe() wrapper reached below another Safe() or inside a container is rendered via SafeMessage(): only plain %v has fmt's characters"]++
+		return
+	case kind == 'S' && !ctx.plain && (x.meth || h.hook && x.err):
+		h.skipped["characters under Safe() for directives other than plain %v, x rendered by its own SafeFormat/SafeMessage/error-hook method instead of the method fmt would call"]++
+		return
+	case kind == 'S' && x.pan && (x.meth || x.prog):
+		h.skipped["characters under Safe(), the name of the panicking method (SafeFormat vs Format/String) is part of the output"]++
+		return
+	case ctx.inner && (x.meth || x.prog || x.red || x.pan || h.hook && x.err) && kind == 'S':
+		h.skipped["characters of Safe(x) inside a container, x with methods of its own"]++
+		return
+	}
+	h.eq.cases++
+	ref, refPanic := "", false
+	func() {
+		defer func() {
+			if r := recover(); r != nil {
+				refPanic = true
+			}
+		}()
+		ref = ctx.ref(x.v)
+	}()
+	if refPanic {
+		h.skipped["fmt itself panics on x"]++
+		h.eq.cases--
+		return
+	}
+	got := RedactableString(out).StripMarkers()
+	if got != c06Strip(out) {
+		h.fail(&h.eq, "RedactableString("+strconv.Quote(out)+").StripMarkers() /* output of "+call+" */", got, "StripMarkers does not remove exactly the delimiters")
+		return
+	}
+	want := c06Esc(ref)
+	if got != want {
+		h.fail(&h.eq, call, out, fmt.Sprintf("characters differ from what fmt prints for x with markers replaced by '?': want %q", want))
+	}
+	if c06HasMarker(ref) || strings.Contains(ref, "\n") || x.prog || x.hasS || x.hasU || x.meth {
+		h.eq.nontrivial++
+	}
+}
+
+func c06Bounded(line map[string]interface{}) {
+	m, _ := json.Marshal(line)
+	fmt.Printf("BOUNDED: %s\n", m)
+}
+
+func TestVerifBoundedC06(t *testing.T) {
+	quick := os.Getenv("VERIF_TIER") != "thorough"
+	// global state: registered safe types and error hook, restored afterwards
+	prevHook := c06ErrorFn
+	defer RegisterRedactErrorFn(prevHook)
+	regTypes := []reflect.Type{reflect.TypeOf(c06RegS{}), reflect.TypeOf(c06RegI(0))}
+	var hadType []bool
+	for _, rt := range regTypes {
+		hadType = append(hadType, c06Registry[rt])
+		RegisterSafeType(rt)
+	}
+	defer func() {
+		for j, rt := range regTypes {
+			if !hadType[j] {
+				delete(c06Registry, rt)
+			}
+		}
+	}()
+
+	h := &c06Harness{t: t, max: 8, debug: os.Getenv("C06_DEBUG") != "", skipped: map[string]int{}}
+	h.u = c06Law{law: "Unsafe(x): the rendering is well-formed and has nothing but line feeds outside envelopes, whatever classification x, its parts or its formatting methods have",
+		rule: "the same call without the wrapper renders some character other than a line feed outside envelopes (x has safe parts that the wrapper must override)"}
+	h.s = c06Law{law: "Safe(x): the rendering contains no marker (x without pre-redactable parts and without explicit Unsafe* writer calls)",
+		rule: "the same call without the wrapper renders an envelope"}
+	h.eq = c06Law{law: "StripMarkers(rendering of Unsafe(x) / Safe(x)) = the characters fmt prints for x in the same call, markers replaced by '?'",
+		rule: "fmt's characters contain a marker or a line feed, or x contains a wrapper, a classification through a method, or a method that calls back into the printer"}
+	h.out = c06Law{law: "nested wrappers: the outermost decides (the two envelope laws for x that contain Safe()/Unsafe() wrappers themselves)",
+		rule: "x contains a wrapper of the opposite kind"}
+	h.pool = c06Law{law: "after a rendering whose formatting methods call back into the printer, later prints of passive values are unaffected (Unsafe one envelope, Safe and literals none)",
+		rule: "every case (three later prints each)"}
+
+	uni := c06BuildUniverse(quick)
+	ctxs := c06Contexts(quick)
+	// programs ignore the directive: they are run through a selection of the contexts in the quick tier
+	progCtx := func(j int) bool {
+		if !quick {
+			return true
+		}
+		return j < 3 || j%5 == 3
+	}
+	run := func(hook bool, only func(c06Val) bool) {
+		h.hook = hook
+		if hook {
+			RegisterRedactErrorFn(c06Hook)
+		} else {
+			RegisterRedactErrorFn(nil)
+		}
+		for _, x := range uni.vals {
+			if only != nil && !only(x) {
+				continue
+			}
+			isProg := strings.HasPrefix(x.name, "c06Fm{") || strings.HasPrefix(x.name, "c06SfF{") || strings.HasPrefix(x.name, "c06SfS{") || strings.HasPrefix(x.name, "c06Er{")
+			for j := range ctxs {
+				if isProg && !progCtx(j) {
+					continue
+				}
+				h.one('U', x, &ctxs[j])
+				h.one('S', x, &ctxs[j])
+				if h.stop() {
+					return
+				}
+			}
+		}
+	}
+	run(true, nil)
+	if !h.stop() {
+		// the values that contain errors once more without a hook (errors then print through Error())
+		run(false, func(x c06Val) bool { return x.err })
+	}
+	complete := !h.stop()
+	bound := fmt.Sprintf("%d values x %d contexts x {Unsafe, Safe}, error hook registered; values containing errors also without hook. Values: %s. Contexts: Sprint, Sprintln, Sprintf with %d directives (bare and between safe sentinels), %%*v, %%.*v, %%[2]v, Sprintfn+Print/Printf, StringBuilder.Print/Printf, nested printers two deep, wrapper inside an unwrapped slice/struct/map",
+		len(uni.vals), len(ctxs), uni.bound, len(c06Formats))
+	if quick {
+		bound += "; quick tier: programs go through every 5th context (+ the first three)"
+	}
+	for _, l := range []*c06Law{&h.u, &h.s, &h.eq, &h.out, &h.pool} {
+		line := map[string]interface{}{"property": "C06", "law": l.law, "cases": l.cases, "nontrivial": l.nontrivial, "nontrivial_rule": l.rule,
+			"bound": bound, "exhaustive": complete && l.fails == 0}
+		if l == &h.eq || l == &h.s {
+			line["skipped"] = h.skipped
+		}
+		c06Bounded(line)
 	}
 }
